@@ -1,4 +1,5 @@
 import Pathrs.Proofs.Props.C13
+import Pathrs.Proofs.Rely
 
 /-!
 # C12 — `mkdir_all` creates exactly the missing directories and converges under races
@@ -18,8 +19,17 @@ import Pathrs.Proofs.Props.C13
   partial-lookup handle, whoever created them — which is why racing callers end at the same
   directories.
 
-The frame condition (nothing else in the tree changes), the requested mode and the agreement of
-racing callers are decided on the real filesystem by the effect oracle and the racing-threads
+* `C12_converges` (rely/guarantee, `Proofs/Rely.lean`): run against a mutable kernel state
+  (`KS`: directory entries, kinds, id allocator) with *environment steps interleaved before every
+  system call* that are only required to add directories (`AddsDirs` — what any number of other
+  `mkdir_all` callers do), the creating loop of the model **succeeds**, returns the directory
+  reached by walking the components in the final state (`kwalk`), and the whole history — its
+  own steps included — only added directories (the guarantee, so N callers compose).  The
+  precondition is that whatever already exists of the chain consists of directories (`Pre`),
+  which is what the partial lookup establishes.
+
+The frame condition on the real filesystem, the requested mode and the agreement of racing
+callers through the partial lookup are decided by the effect oracle and the racing-threads
 suite of the check; each thread's transcript is replayed through the model.
 -/
 
@@ -164,6 +174,13 @@ theorem C12_loop_chain (perm : Nat) (parts : List Bytes) : ∀ (cur : Fd) {h h' 
       have := ih next hr4
       rw [hclose, ho] at this
       simpa using this
+
+/-- **convergence under races** (restated from `Proofs/Rely.lean`) -/
+theorem C12_converges (perm : Nat) (parts : List Bytes) (cur : Fd) (w w' : KS) (t : Hist) (r : Except Err Fd)
+    (ha : Alloc w) (hc : 0 ≤ cur) (hd : w.isDir cur = true) (hns : ∀ p ∈ parts, Path.containsSlash p = false)
+    (hpre : Pre w cur parts) (hr : RunsT (Root.mkdirLoop perm cur parts) t r) (hv : Valid w t w') :
+    ∃ fd, r = .ok fd ∧ kwalk w' cur parts = some fd ∧ AddsDirs w w' ∧ Alloc w' :=
+  mkdirLoop_converges perm parts cur w w' t r ha hc hd hns hpre hr hv
 
 /-- non-vacuity: a two-component run where the first directory already exists -/
 example : Steps 0o755 5 [b!"a"] []
